@@ -917,3 +917,121 @@ Proof.
   split; [|split; [exact Hwf|exact Hs]].
   apply encoding_sound. apply run_memo; [apply new_archive_wf|left; reflexivity|exact Hnp].
 Qed.
+
+(* ------------------------------------------------------------------------------------------ *)
+(** * H. the closed form: what New + SetValue builds is the little-endian packing of the bits *)
+
+Lemma testbit_N_of_bits : forall l i, N.testbit (N_of_bits l) (N.of_nat i) = nth i l false.
+Proof.
+  induction l as [|b l IH]; intro i; cbn [N_of_bits nth].
+  - rewrite N.bits_0. destruct i; reflexivity.
+  - rewrite N.add_comm. destruct i as [|i].
+    + apply N.testbit_0_r.
+    + rewrite Nat2N.inj_succ, N.testbit_succ_r. apply IH.
+Qed.
+
+Lemma N_of_bits_lt : forall l, (N_of_bits l < 2 ^ N.of_nat (List.length l))%N.
+Proof.
+  induction l as [|b l IH]; cbn [N_of_bits List.length]; [reflexivity|].
+  rewrite Nat2N.inj_succ, N.pow_succ_r'. destruct b; cbn [N.b2n]; lia.
+Qed.
+
+Lemma nth_firstn_lt : forall {A} n (l : list A) i d, i < n -> nth i (firstn n l) d = nth i l d.
+Proof.
+  intros A n. induction n as [|n IH]; intros l i d Hi; [lia|]. destruct l as [|x l]; [reflexivity|].
+  destruct i as [|i]; [reflexivity|]. cbn [firstn nth]. apply IH. lia.
+Qed.
+
+Lemma nth_skipn_add : forall {A} k (l : list A) i d, nth i (skipn k l) d = nth (k + i) l d.
+Proof.
+  intros A k. induction k as [|k IH]; intros l i d; [reflexivity|]. destruct l as [|x l].
+  - cbn [skipn]. destruct i; destruct (S k + _); reflexivity.
+  - cbn [skipn]. rewrite IH. reflexivity.
+Qed.
+
+Lemma nth_map_seq : forall {A} (f : nat -> A) m k d, k < m -> nth k (map f (seq 0 m)) d = f k.
+Proof.
+  intros A f m k d Hk. rewrite (nth_indep _ d (f 0)) by (rewrite map_length, seq_length; exact Hk).
+  rewrite (map_nth f (seq 0 m) 0 k), seq_nth by exact Hk. reflexivity.
+Qed.
+
+Lemma words_of_bits_nth : forall bs k, k < nwords (List.length bs) ->
+  nth k (words_of_bits bs) 0%N = N_of_bits (firstn 64 (skipn (64 * k) bs)).
+Proof.
+  intros bs k Hk. unfold words_of_bits. apply (nth_map_seq (fun k => N_of_bits (firstn 64 (skipn (64 * k) bs)))). exact Hk.
+Qed.
+
+Lemma bit_at_words_of_bits : forall bs j, bit_at (words_of_bits bs) j = nth j bs false.
+Proof.
+  intros bs j. unfold bit_at. destruct (Nat.lt_ge_cases (j / 64) (nwords (List.length bs))) as [L | G].
+  - rewrite words_of_bits_nth by exact L. rewrite testbit_N_of_bits.
+    rewrite nth_firstn_lt by (apply Nat.mod_upper_bound; lia). rewrite nth_skipn_add.
+    rewrite <- Nat.div_mod by lia. reflexivity.
+  - rewrite nth_overflow by (unfold words_of_bits; rewrite map_length, seq_length; exact G).
+    rewrite N.bits_0. symmetry. apply nth_overflow.
+    pose proof (nwords_bounds (List.length bs)). pose proof (Nat.div_mod j 64 ltac:(lia)). lia.
+Qed.
+
+Lemma of_bits_wf : forall bs, wf (of_bits bs).
+Proof.
+  intro bs. unfold wf, of_bits. cbn [a_words a_size]. split; [|split].
+  - unfold words_of_bits. rewrite map_length, seq_length. reflexivity.
+  - apply all_lt64_of_nth. intro i. destruct (Nat.lt_ge_cases i (nwords (List.length bs))) as [L | G].
+    + rewrite words_of_bits_nth by exact L. unfold lt64. rewrite two64_pow.
+      apply N.lt_le_trans with (2 ^ N.of_nat (List.length (firstn 64 (skipn (64 * i) bs))))%N; [apply N_of_bits_lt|].
+      apply N.pow_le_mono_r; [discriminate|]. pose proof (firstn_le_length 64 (skipn (64 * i) bs)). lia.
+    + rewrite nth_overflow by (unfold words_of_bits; rewrite map_length, seq_length; exact G). reflexivity.
+  - intros j Hj. rewrite bit_at_words_of_bits. apply nth_overflow. exact Hj.
+Qed.
+
+Lemma of_bits_bits : forall bs, bits (of_bits bs) = bs.
+Proof.
+  intro bs. apply (nth_ext _ _ false false); [rewrite bits_length; reflexivity|].
+  intros j Hj. rewrite bits_length in Hj. rewrite bits_nth by exact Hj. apply bit_at_words_of_bits.
+Qed.
+
+Lemma build_is_of_bits : forall bs, build bs = Ok (of_bits bs).
+Proof.
+  intro bs. destruct (build_spec bs) as [a [E [Hwf [Hs [Hm Hb]]]]]. rewrite E. f_equal.
+  assert (Hw : a_words a = a_words (of_bits bs)).
+  { apply wf_bits_inj; [exact Hwf|apply of_bits_wf|exact Hs|]. rewrite of_bits_bits. exact Hb. }
+  destruct a as [sz ws m]. cbn in *. subst. reflexivity.
+Qed.
+
+(* DESIGN 8/C09 in its planned form *)
+Lemma roundtrip_of_bits : forall bs, bs <> [] ->
+  decode (new_archive (List.length bs)) (snd (encoding (of_bits bs))) = Ok (of_bits bs, true).
+Proof.
+  intros bs Hne. rewrite encoding_fresh by reflexivity. cbn [snd].
+  rewrite (decode_encoding (of_bits bs) (new_archive (List.length bs)) (of_bits_wf bs) (new_archive_wf _)).
+  - reflexivity.
+  - reflexivity.
+  - cbn [a_size of_bits]. destruct bs; [congruence|cbn; lia].
+Qed.
+
+Lemma canonical_of_bits : forall b1 b2, List.length b1 = List.length b2 ->
+  (snd (encoding (of_bits b1)) = snd (encoding (of_bits b2)) <-> b1 = b2).
+Proof.
+  intros b1 b2 HL. rewrite !encoding_fresh by reflexivity. cbn [snd].
+  rewrite (canonical (of_bits b1) (of_bits b2) (of_bits_wf b1) (of_bits_wf b2) HL). rewrite !of_bits_bits. reflexivity.
+Qed.
+
+(* ------------------------------------------------------------------------------------------ *)
+(** * I. packaged statements used by Properties/C09.v *)
+
+Lemma out_of_range_panics : forall a i v, (Z.of_nat (a_size a) <= i)%Z ->
+  set_value a i v = Panic /\ value a i = Panic.
+Proof. intros a i v H. split; [exact (set_value_out_of_range a i v H)|exact (value_out_of_range a i H)]. Qed.
+
+Lemma of_bits_wf_bits : forall bs, wf (of_bits bs) /\ bits (of_bits bs) = bs.
+Proof. intro bs. split; [exact (of_bits_wf bs)|exact (of_bits_bits bs)]. Qed.
+
+Lemma reachable_wf : forall n ops, wf (run (new_archive n) ops) /\ a_size (run (new_archive n) ops) = n.
+Proof. intros n ops. exact (run_wf ops (new_archive n) (new_archive_wf n)). Qed.
+
+Lemma size0_not_roundtrip : decode (new_archive 0) (snd (encoding (of_bits []))) = Ok (new_archive 0, false).
+Proof. vm_compute. reflexivity. Qed.
+
+Lemma memo_stale_after_rejected_decode : exists n ops,
+  let a := run (new_archive n) ops in snd (encoding a) <> encode_words (a_words a).
+Proof. exists 65, [OpEncode; OpDecode "1:zz"; OpEncode]. vm_compute. discriminate. Qed.
